@@ -65,7 +65,7 @@ func secretContents(seed int64, n int) [][]byte {
 	return [][]byte{z, f, r, filler(seed, fmt.Sprint("secret", n), n)}
 }
 
-var secretLens = []int{0, 1, 2, 5, 10, 19, 20, 21, 32, 63, 64, 65, 127, 128, 129, 200}
+var secretLens = []int{0, 1, 2, 3, 4, 5, 8, 10, 16, 19, 20, 21, 32, 63, 64, 65, 127, 128, 129, 200}
 
 // spellings of one key: unpadded upper, canonical padded, lower-case unpadded, mixed case wrapped in white space.
 func spellings(key []byte) []string {
